@@ -649,7 +649,11 @@ where
             //= https://www.rfc-editor.org/rfc/rfc9114#section-6.2.3
             //# They MAY also be
             //# sent on connections where no data is currently being transferred.
-            ready!(self.poll_grease_stream(cx));
+
+            // The frame just read must not wait for the grease stream, nor be lost when that
+            // stream cannot progress (no stream credit left, blocked write): the grease
+            // stream is continued with the next frame.
+            let _ = self.poll_grease_stream(cx);
         }
 
         Poll::Ready(Ok(res))
